@@ -45,11 +45,15 @@ def model():
             def before_insert(self):
                 self._log('before_insert')
                 if BEHAVIOUR['mode'] == 'edit' and hasattr(self, 'note'): self.note = 'edited-in-before_insert'
+                if BEHAVIOUR['mode'] == 'link' and type(self).__name__ == 'P': self.tags.add(type(self)._database_.T.get(name='t0'))
                 if BEHAVIOUR['mode'] == 'create' and type(self).__name__ == 'P':
                     type(self)._database_.G(name='made-by-hook-of-' + self.name)
             def before_update(self):
                 self._log('before_update')
                 if BEHAVIOUR['mode'] == 'edit' and hasattr(self, 'note'): self.note = 'edited-in-before_update'
+                if BEHAVIOUR['mode'] == 'link' and type(self).__name__ == 'P':
+                    T = type(self)._database_.T
+                    self.tags.add(T.get(name='t0')); self.tags.remove(T.get(name='t1'))
                 if BEHAVIOUR['mode'] == 'assign-principal' and type(self).__name__ == 'P':
                     # the hook itself creates a new object and makes this object refer to it (an attribute not written before the hook)
                     self.g = type(self)._database_.G(name='principal-made-in-before_update-of-%s#%d' % (self.name, len(LOG)))
@@ -71,17 +75,23 @@ def model():
             name = orm.Required(str, unique=True)
             note = orm.Optional(str)
             g = orm.Optional(G)
+            tags = orm.Set('T')
+
+        class T(db.Entity):                              # many-to-many: links made by a hook are written by the same flush
+            name = orm.Required(str, unique=True)
+            ps = orm.Set(P)
         db.generate_mapping(create_tables=True)
-        _M = types.SimpleNamespace(db=db, G=G, P=P)
+        _M = types.SimpleNamespace(db=db, G=G, P=P, T=T)
     return _M
 
 
 def _reset_data(M):
     BEHAVIOUR['mode'] = 'passive'
     with orm.db_session:
-        M.db.execute('delete from P'); M.db.execute('delete from G')
+        M.db.execute('delete from P_T'); M.db.execute('delete from T'); M.db.execute('delete from P'); M.db.execute('delete from G')
         M.db.execute("insert into G(id, name) values (1, 'g0')")
         M.db.execute("insert into P(id, name, note, g) values (1, 'p0', '', 1), (2, 'p1', '', 1)")
+        M.db.execute("insert into T(id, name) values (1, 't0'), (2, 't1')"); M.db.execute("insert into P_T(p, t) values (1, 2), (2, 2)")
     del LOG[:]; IDENT.clear()
 
 
@@ -101,7 +111,7 @@ def _scripts(M):
 
 
 TRIGGERS = ('commit', 'flush', 'obj.flush', 'query', 'two_rounds')
-MODES = ('passive', 'edit', 'create', 'after-modifies', 'assign-principal')
+MODES = ('passive', 'edit', 'create', 'after-modifies', 'assign-principal', 'link')
 
 
 def _configs(tier):
@@ -150,6 +160,7 @@ def _case(cfg, values):
         with orm.db_session:
             st['rows_p'] = sorted(M.db.select('select name, note, g from P'))
             st['rows_g'] = sorted(M.db.select('select name, counter from G'))
+            st['links'] = sorted(M.db.select('select p.name, t.name from P_T pt join P p on p.id = pt.p join T t on t.id = pt.t'))
         return 'done'
     return Case(call, {}, [], setup, teardown)
 
@@ -198,6 +209,12 @@ def _hook_edits_saved(cfg, i, path):
         for e in log:
             if e[0] == 'before_update' and e[1] == 'P' and e[2] in rows_p:
                 if not any(n.startswith('principal-made-in-before_update-of-' + e[2] + '#') for n in rows_g): return False
+    if cfg['mode'] == 'link':
+        links = set(tuple(r) for r in st['links'])
+        for e in log:
+            if e[1] == 'P' and e[0] in ('before_insert', 'before_update') and e[2] in rows_p:
+                if (e[2], 't0') not in links: return False                                     # the link made in the hook was written
+                if e[0] == 'before_update' and (e[2], 't1') in links: return False               # and the one it removed is gone
     if cfg['mode'] == 'after-modifies':
         n = len([e for e in log if e[0] == 'after_insert' and e[1] == 'P'])
         if n and 'g0' in rows_g and rows_g['g0'][1] != n: return False
